@@ -1,5 +1,4 @@
 import LunarVerif.Spec.C16
-import LunarVerif.Model.C16Fix
 /-!
 Helper lemmas for C16 (property statements live in `Properties/C16.lean`).
 -/
@@ -408,86 +407,89 @@ theorem conforms_getAt (H : Str → Str) (E : Str → Bool) :
             | _ => simp at h
         | _ => simp [getAt] at hg
 
-/-! ### Where the walk's exclusion test and the declarative one agree -/
+/-! ### The walk's exclusion test IS the declarative one (on renderings of positions) -/
 
-theorem not_prefix_of_head (t c : Str)
-    (hhead : c = [] ∨ ∃ ch r, c = ch :: r ∧ (ch = '.' ∨ ch = '[')) :
-    List.isPrefixOf ('$' :: t) c = false := by
-  rcases hhead with rfl | ⟨ch, r, rfl, hch⟩
-  · rfl
-  · rcases hch with rfl | rfl <;> simp [List.isPrefixOf]
+theorem reqPrefix_chars : reqPrefix = ['$', '.', 'r', 'e', 'q', 'u', 'e', 's', 't', '.', 'b', 'o', 'd', 'y'] := by decide
+theorem respPrefix_chars :
+    respPrefix = ['$', '.', 'r', 'e', 's', 'p', 'o', 'n', 's', 'e', '.', 'b', 'o', 'd', 'y'] := by decide
 
-theorem agree_prefixed (pre t : Str) (hpre : pre = '$' :: t) (ex : List Str) (c : Str)
-    (hhead : c = [] ∨ ∃ ch r, c = ch :: r ∧ (ch = '.' ∨ ch = '['))
-    (hsf : (c.isEmpty || ex.all (fun e => !(pre.isPrefixOf e && c.isSuffixOf e) || e == pre ++ c)) = true)
-    (hroot : c = [] → (ex.any fun e => e == pre ++ []) = false) :
-    isCursorInExcludedPath c (ex.filter (fun e => pre.isPrefixOf e)) = ex.any (fun e => e == pre ++ c) := by
-  have hnc : (ex.filter (fun e => pre.isPrefixOf e)).contains c = false := by
-    cases hcon : (ex.filter (fun e => pre.isPrefixOf e)).contains c with
-    | false => rfl
-    | true =>
-      have hm : c ∈ ex.filter (fun e => pre.isPrefixOf e) := by simpa using hcon
-      have hp := (List.mem_filter.mp hm).2
-      rw [hpre, not_prefix_of_head t c hhead] at hp
-      simp at hp
-  unfold isCursorInExcludedPath
-  rw [hnc]
-  by_cases hc : c = []
-  · subst hc
-    have hr := hroot rfl
-    simp only [List.isEmpty_nil, if_true, Bool.false_eq_true, if_false]
-    rw [hr]
-  · have hne : c.isEmpty = false := by cases c <;> simp_all
-    simp only [Bool.false_eq_true, if_false, hne]
-    rw [hne, Bool.false_or] at hsf
-    rw [Bool.eq_iff_iff]
-    simp only [List.any_eq_true, List.mem_filter]
-    constructor
-    · rintro ⟨e, ⟨hmem, hp⟩, hs⟩
-      have := (List.all_eq_true.mp hsf) e hmem
-      simp only [hp, hs, Bool.and_self, Bool.not_true, Bool.false_or] at this
-      exact ⟨e, hmem, this⟩
-    · rintro ⟨e, hmem, he⟩
-      have he' : e = pre ++ c := by simpa using he
-      subst he'
-      refine ⟨pre ++ c, ⟨hmem, ?_⟩, ?_⟩
-      · simp [List.isPrefixOf_iff_prefix]
-      · simp [List.isSuffixOf_iff_suffix]
+theorem req_not_prefix_of_resp (t : Str) : reqPrefix.isPrefixOf (respPrefix ++ t) = false := by
+  rw [reqPrefix_chars, respPrefix_chars]; simp [List.isPrefixOf]
 
-theorem agree_raw (ex : List Str) (c : Str)
-    (hsf : (c.isEmpty || ex.all (fun e => !(true && c.isSuffixOf e) || e == c)) = true) :
-    isCursorInExcludedPath c ex = ex.any (fun e => e == c) := by
-  unfold isCursorInExcludedPath
-  have hcon : ex.contains c = ex.any (fun e => e == c) := by
-    rw [List.contains_eq_any_beq]
-    congr 1
-    funext e
-    exact Bool.eq_iff_iff.mpr ⟨fun h => beq_iff_eq.mpr (beq_iff_eq.mp h).symm,
-      fun h => beq_iff_eq.mpr (beq_iff_eq.mp h).symm⟩
-  rw [hcon]
-  cases hany : ex.any (fun e => e == c) with
-  | true => simp
+theorem resp_not_prefix_of_req (t : Str) : respPrefix.isPrefixOf (reqPrefix ++ t) = false := by
+  rw [reqPrefix_chars, respPrefix_chars]; simp [List.isPrefixOf]
+
+theorem trim_req (e : Str) (h : reqPrefix.isPrefixOf e = true) :
+    ∃ t, e = reqPrefix ++ t ∧ trimBodyPathPrefix e = t := by
+  obtain ⟨t, rfl⟩ := List.isPrefixOf_iff_prefix.mp h
+  exact ⟨t, rfl, by simp [trimBodyPathPrefix, h]⟩
+
+theorem trim_resp (e : Str) (h : respPrefix.isPrefixOf e = true) :
+    ∃ t, e = respPrefix ++ t ∧ trimBodyPathPrefix e = t := by
+  obtain ⟨t, rfl⟩ := List.isPrefixOf_iff_prefix.mp h
+  exact ⟨t, rfl, by simp [trimBodyPathPrefix, req_not_prefix_of_resp, h]⟩
+
+theorem trim_none (e : Str) (h1 : reqPrefix.isPrefixOf e = false) (h2 : respPrefix.isPrefixOf e = false) :
+    trimBodyPathPrefix e = e := by simp [trimBodyPathPrefix, h1, h2]
+
+theorem prefix_append_self (pre c : Str) : pre.isPrefixOf (pre ++ c) = true := by
+  simp [List.isPrefixOf_iff_prefix]
+
+/-- one exclusion, `raw` entry point: the code's test is "denotes in one of the two notations" -/
+theorem denotes_raw_iff (e c : Str) :
+    (e == c || trimBodyPathPrefix e == c) = denotes .raw e c := by
+  simp only [denotes]
+  cases h1 : reqPrefix.isPrefixOf e with
+  | true =>
+    obtain ⟨t, rfl, ht⟩ := trim_req e h1
+    rw [ht]
+    have h3 : (reqPrefix ++ t == respPrefix ++ c) = false := by
+      cases h : (reqPrefix ++ t == respPrefix ++ c) with
+      | false => rfl
+      | true =>
+        have := resp_not_prefix_of_req t
+        rw [beq_iff_eq.mp h, prefix_append_self] at this
+        exact absurd this (by simp)
+    have h4 : (reqPrefix ++ t == reqPrefix ++ c) = (t == c) := by
+      rw [Bool.eq_iff_iff]; simp
+    rw [h3, h4, Bool.or_false]
   | false =>
-    simp only [Bool.false_eq_true, if_false]
-    cases hne : c.isEmpty with
-    | true => simp
+    have h3 : (e == reqPrefix ++ c) = false := by
+      cases h : (e == reqPrefix ++ c) with
+      | false => rfl
+      | true => rw [beq_iff_eq.mp h, prefix_append_self] at h1; exact absurd h1 (by simp)
+    cases h2 : respPrefix.isPrefixOf e with
+    | true =>
+      obtain ⟨t, rfl, ht⟩ := trim_resp e h2
+      rw [ht]
+      have h4 : (respPrefix ++ t == respPrefix ++ c) = (t == c) := by
+        rw [Bool.eq_iff_iff]; simp
+      rw [h3, h4, Bool.or_false]
     | false =>
-      simp only [Bool.false_eq_true, if_false]
-      rw [hne, Bool.false_or] at hsf
-      rw [List.any_eq_false]
-      intro e hmem hs
-      have := (List.all_eq_true.mp hsf) e hmem
-      simp only [hs, Bool.and_self, Bool.not_true, Bool.false_or] at this
-      have hf := (List.any_eq_false.mp hany) e hmem
-      exact hf this
+      have h5 : (e == respPrefix ++ c) = false := by
+        cases h : (e == respPrefix ++ c) with
+        | false => rfl
+        | true => rw [beq_iff_eq.mp h, prefix_append_self] at h2; exact absurd h2 (by simp)
+      rw [trim_none e h1 h2, h3, h5]; simp
+
+/-- a rendering never starts with `$` -/
+theorem ne_of_prefixed (t c e : Str)
+    (hhead : c = [] ∨ ∃ ch r, c = ch :: r ∧ (ch = '.' ∨ ch = '['))
+    (hp : List.isPrefixOf ('$' :: t) e = true) : (e == c) = false := by
+  cases h : (e == c) with
+  | false => rfl
+  | true =>
+    rw [beq_iff_eq.mp h] at hp
+    rcases hhead with rfl | ⟨ch, r, rfl, hch⟩
+    · simp [List.isPrefixOf] at hp
+    · rcases hch with rfl | rfl <;> simp [List.isPrefixOf] at hp
 
 theorem reqPrefix_eq : reqPrefix = '$' :: ".request.body".toList := by decide
 theorem respPrefix_eq : respPrefix = '$' :: ".response.body".toList := by decide
 
-/-- On a suffix-free cursor (and with the whole body not excluded by prefix alone) the walk's test is
-    the declarative one. -/
-theorem excl_agree (side : Side) (ex : List Str) (p : List Step)
-    (hsf : cursorSuffixFree side ex (render p) = true) (hroot : rootNotDenoted side ex = true) :
+/-- The code's exclusion test (after the side's filter) equals the declarative test, on every
+    rendering of a position. -/
+theorem excl_agree (side : Side) (ex : List Str) (p : List Step) :
     modelExcl (bodyExclusions side ex) (render p) = specExcluded side ex (render p) := by
   have hhead : render p = [] ∨ ∃ ch r, render p = ch :: r ∧ (ch = '.' ∨ ch = '[') := by
     rcases render_head p with ⟨_, h⟩ | h
@@ -495,140 +497,88 @@ theorem excl_agree (side : Side) (ex : List Str) (p : List Step)
     · exact Or.inr h
   cases side with
   | raw =>
-    simp only [modelExcl, bodyExclusions, specExcluded, denotes]
-    exact agree_raw ex (render p) (by simpa [cursorSuffixFree, relevant, denotes] using hsf)
+    simp only [modelExcl, bodyExclusions, isCursorInExcludedPath, specExcluded]
+    congr 1
+    funext e
+    exact denotes_raw_iff e (render p)
   | req =>
-    simp only [modelExcl, bodyExclusions, filterBodyExclusions, specExcluded, denotes]
-    refine agree_prefixed reqPrefix _ reqPrefix_eq ex (render p) hhead
-      (by simpa [cursorSuffixFree, relevant, denotes] using hsf) ?_
-    intro _
-    simpa [rootNotDenoted, specExcluded, denotes] using hroot
+    simp only [modelExcl, bodyExclusions, filterBodyExclusions, isCursorInExcludedPath, specExcluded,
+      List.any_filter, denotes]
+    congr 1
+    funext e
+    cases h1 : reqPrefix.isPrefixOf e with
+    | false =>
+      simp only [Bool.false_and]
+      cases h : (e == reqPrefix ++ render p) with
+      | false => rfl
+      | true => rw [beq_iff_eq.mp h, prefix_append_self] at h1; exact absurd h1 (by simp)
+    | true =>
+      obtain ⟨t, rfl, ht⟩ := trim_req e h1
+      rw [ht, ne_of_prefixed _ (render p) _ hhead (reqPrefix_eq ▸ h1)]
+      rw [Bool.eq_iff_iff]; simp
   | resp =>
-    simp only [modelExcl, bodyExclusions, filterBodyExclusions, specExcluded, denotes]
-    refine agree_prefixed respPrefix _ respPrefix_eq ex (render p) hhead
-      (by simpa [cursorSuffixFree, relevant, denotes] using hsf) ?_
-    intro _
-    simpa [rootNotDenoted, specExcluded, denotes] using hroot
+    simp only [modelExcl, bodyExclusions, filterBodyExclusions, isCursorInExcludedPath, specExcluded,
+      List.any_filter, denotes]
+    congr 1
+    funext e
+    cases h1 : respPrefix.isPrefixOf e with
+    | false =>
+      simp only [Bool.false_and]
+      cases h : (e == respPrefix ++ render p) with
+      | false => rfl
+      | true => rw [beq_iff_eq.mp h, prefix_append_self] at h1; exact absurd h1 (by simp)
+    | true =>
+      obtain ⟨t, rfl, ht⟩ := trim_resp e h1
+      rw [ht, ne_of_prefixed _ (render p) _ hhead (respPrefix_eq ▸ h1)]
+      rw [Bool.eq_iff_iff]; simp
 
-/-! ### Transfer: on suffix-free inputs, conformance w.r.t. the walk's test IS the property -/
+/-! ### Conformance only looks at the exclusion predicate on renderings -/
 
 mutual
-theorem conforms_transfer (H : Str → Str) (side : Side) (ex : List Str)
-    (hroot : rootNotDenoted side ex = true) : ∀ (d out : Json) (p : List Step),
-    suffixFreeAt side ex p d = true →
-    conformsWith H (modelExcl (bodyExclusions side ex)) p d out
-      = conformsWith H (specExcluded side ex) p d out
-  | .arr xs, out, p, h => by
-    simp only [suffixFreeAt, Bool.and_eq_true] at h
-    simp only [conformsWith, excl_agree side ex p h.1 hroot]
-    by_cases he : specExcluded side ex (render p) = true
+theorem conforms_congr (H : Str → Str) (E E' : Str → Bool) (hE : ∀ p, E (render p) = E' (render p)) :
+    ∀ (d out : Json) (p : List Step), conformsWith H E p d out = conformsWith H E' p d out
+  | .arr xs, out, p => by
+    simp only [conformsWith, hE p]
+    by_cases he : E' (render p) = true
     · simp [he]
     · simp only [he, if_false, Bool.false_eq_true]
       cases out with
-      | arr ys => exact conformsList_transfer H side ex hroot xs ys p 0 h.2
+      | arr ys => exact conformsList_congr H E E' hE xs ys p 0
       | _ => rfl
-  | .obj kvs, out, p, h => by
-    simp only [suffixFreeAt, Bool.and_eq_true] at h
-    simp only [conformsWith, excl_agree side ex p h.1 hroot]
-    by_cases he : specExcluded side ex (render p) = true
+  | .obj kvs, out, p => by
+    simp only [conformsWith, hE p]
+    by_cases he : E' (render p) = true
     · simp [he]
     · simp only [he, if_false, Bool.false_eq_true]
       cases out with
-      | obj ovs => exact conformsFields_transfer H side ex hroot kvs ovs p h.2
+      | obj ovs => exact conformsFields_congr H E E' hE kvs ovs p
       | _ => rfl
-  | .null, out, p, h => by
-    simp only [suffixFreeAt] at h
-    simp only [conformsWith, excl_agree side ex p h hroot]
-  | .bool b, out, p, h => by
-    simp only [suffixFreeAt] at h
-    simp only [conformsWith, excl_agree side ex p h hroot]
-  | .num l, out, p, h => by
-    simp only [suffixFreeAt] at h
-    simp only [conformsWith, excl_agree side ex p h hroot]
-  | .str s, out, p, h => by
-    simp only [suffixFreeAt] at h
-    simp only [conformsWith, excl_agree side ex p h hroot]
-theorem conformsList_transfer (H : Str → Str) (side : Side) (ex : List Str)
-    (hroot : rootNotDenoted side ex = true) : ∀ (xs ys : List Json) (p : List Step) (i : Nat),
-    suffixFreeList side ex p i xs = true →
-    conformsList H (modelExcl (bodyExclusions side ex)) p i xs ys
-      = conformsList H (specExcluded side ex) p i xs ys
-  | [], ys, p, i, _ => by cases ys <;> simp [conformsList]
-  | x :: xs, ys, p, i, h => by
+  | .null, out, p => by simp only [conformsWith, hE p]
+  | .bool b, out, p => by simp only [conformsWith, hE p]
+  | .num l, out, p => by simp only [conformsWith, hE p]
+  | .str s, out, p => by simp only [conformsWith, hE p]
+theorem conformsList_congr (H : Str → Str) (E E' : Str → Bool) (hE : ∀ p, E (render p) = E' (render p)) :
+    ∀ (xs ys : List Json) (p : List Step) (i : Nat),
+    conformsList H E p i xs ys = conformsList H E' p i xs ys
+  | [], ys, p, i => by cases ys <;> simp [conformsList]
+  | x :: xs, ys, p, i => by
     cases ys with
     | nil => simp [conformsList]
     | cons y ys =>
-      simp only [suffixFreeList, Bool.and_eq_true] at h
       simp only [conformsList]
-      rw [conforms_transfer H side ex hroot x y _ h.1, conformsList_transfer H side ex hroot xs ys p (i + 1) h.2]
-theorem conformsFields_transfer (H : Str → Str) (side : Side) (ex : List Str)
-    (hroot : rootNotDenoted side ex = true) : ∀ (kvs ovs : List (Str × Json)) (p : List Step),
-    suffixFreeFields side ex p kvs = true →
-    conformsFields H (modelExcl (bodyExclusions side ex)) p kvs ovs
-      = conformsFields H (specExcluded side ex) p kvs ovs
-  | [], ovs, p, _ => by cases ovs <;> simp [conformsFields]
-  | (k, v) :: r, ovs, p, h => by
+      rw [conforms_congr H E E' hE x y _, conformsList_congr H E E' hE xs ys p (i + 1)]
+theorem conformsFields_congr (H : Str → Str) (E E' : Str → Bool) (hE : ∀ p, E (render p) = E' (render p)) :
+    ∀ (kvs ovs : List (Str × Json)) (p : List Step),
+    conformsFields H E p kvs ovs = conformsFields H E' p kvs ovs
+  | [], ovs, p => by cases ovs <;> simp [conformsFields]
+  | (k, v) :: r, ovs, p => by
     cases ovs with
     | nil => simp [conformsFields]
     | cons y ovs =>
       obtain ⟨k', o⟩ := y
-      simp only [suffixFreeFields, Bool.and_eq_true] at h
       simp only [conformsFields]
-      rw [conforms_transfer H side ex hroot v o _ h.1, conformsFields_transfer H side ex hroot r ovs p h.2]
+      rw [conforms_congr H E E' hE v o _, conformsFields_congr H E E' hE r ovs p]
 end
-
-/-! ### Small bridges used by the property theorems -/
-
-theorem coveredFrom_mono (E E' : Str → Bool) (hm : ∀ c, E c = true → E' c = true) :
-    ∀ (q p0 : List Step), coveredFrom E p0 q = true → coveredFrom E' p0 q = true := by
-  intro q
-  induction q with
-  | nil => intro p0 h; exact hm _ h
-  | cons s q ih =>
-    intro p0 h
-    simp only [coveredFrom, Bool.or_eq_true] at h ⊢
-    rcases h with h | h
-    · exact Or.inl (hm _ h)
-    · exact Or.inr (ih _ h)
-
-/-- An explicitly excluded position is excluded by the walk (whole-body-by-prefix aside). -/
-theorem spec_imp_model (side : Side) (ex : List Str) (hroot : rootNotDenoted side ex = true) (c : Str)
-    (h : specExcluded side ex c = true) : modelExcl (bodyExclusions side ex) c = true := by
-  have key : ∀ (pre : Str), (ex.any fun e => e == pre ++ []) = false → (ex.any fun e => e == pre ++ c) = true →
-      isCursorInExcludedPath c (ex.filter fun e => pre.isPrefixOf e) = true := by
-    intro pre hr hc
-    unfold isCursorInExcludedPath
-    by_cases hcon : (ex.filter fun e => pre.isPrefixOf e).contains c = true
-    · rw [if_pos hcon]
-    · simp only [hcon, if_false, Bool.false_eq_true]
-      have hne : c.isEmpty = false := by
-        cases c with
-        | nil => rw [hr] at hc; simp at hc
-        | cons _ _ => rfl
-      simp only [hne, if_false, Bool.false_eq_true]
-      obtain ⟨e, hmem, he⟩ := List.any_eq_true.mp hc
-      have he' : e = pre ++ c := by simpa using he
-      subst he'
-      exact List.any_eq_true.mpr ⟨pre ++ c, List.mem_filter.mpr ⟨hmem, by simp [List.isPrefixOf_iff_prefix]⟩,
-        by simp [List.isSuffixOf_iff_suffix]⟩
-  cases side with
-  | raw =>
-    simp only [specExcluded, denotes] at h
-    obtain ⟨e, hmem, he⟩ := List.any_eq_true.mp h
-    have he' : e = c := by simpa using he
-    subst he'
-    have : ex.contains e = true := by simpa using hmem
-    show isCursorInExcludedPath e ex = true
-    unfold isCursorInExcludedPath
-    rw [if_pos this]
-  | req =>
-    simp only [specExcluded, denotes] at h
-    simp only [modelExcl, bodyExclusions, filterBodyExclusions]
-    exact key reqPrefix (by simpa [rootNotDenoted, specExcluded, denotes] using hroot) h
-  | resp =>
-    simp only [specExcluded, denotes] at h
-    simp only [modelExcl, bodyExclusions, filterBodyExclusions]
-    exact key respPrefix (by simpa [rootNotDenoted, specExcluded, denotes] using hroot) h
 
 /-- What conformance says about a primitive at a non-excluded position. -/
 theorem conforms_leaf (H : Str → Str) (E : Str → Bool) (p : List Step) (v o : Json)
@@ -636,34 +586,5 @@ theorem conforms_leaf (H : Str → Str) (E : Str → Bool) (p : List Step) (v o 
     o = .str (H (leafPre v)) := by
   cases v <;> simp only [isLeaf, Bool.false_eq_true] at hl <;>
     simp only [conformsWith, he, if_false, Bool.false_eq_true] at h <;> exact Json.eq_of_beq _ _ h
-
-/-! ### The proposed patch makes the walk's test the declarative one -/
-
-theorem fixedFilter_contains (pre : Str) (ex : List Str) (c : Str) :
-    (fixedFilter pre ex).contains c = ex.any (fun e => e == pre ++ c) := by
-  rw [Bool.eq_iff_iff]
-  simp only [fixedFilter, List.contains_iff_mem, List.mem_map, List.mem_filter, List.any_eq_true, beq_iff_eq]
-  constructor
-  · rintro ⟨e, ⟨hmem, hp⟩, hd⟩
-    obtain ⟨t, rfl⟩ := List.isPrefixOf_iff_prefix.mp hp
-    simp only [List.drop_left] at hd
-    subst hd
-    exact ⟨_, hmem, rfl⟩
-  · rintro ⟨e, hmem, rfl⟩
-    exact ⟨pre ++ c, ⟨hmem, by simp [List.isPrefixOf_iff_prefix]⟩, by simp⟩
-
-theorem fixedExcl_eq_spec (side : Side) (ex : List Str) :
-    fixedExcl (fixedExclusions side ex) = specExcluded side ex := by
-  funext c
-  cases side with
-  | raw =>
-    simp only [fixedExcl, fixedExclusions, specExcluded, denotes]
-    rw [List.contains_eq_any_beq]
-    congr 1
-    funext e
-    exact Bool.eq_iff_iff.mpr ⟨fun h => beq_iff_eq.mpr (beq_iff_eq.mp h).symm,
-      fun h => beq_iff_eq.mpr (beq_iff_eq.mp h).symm⟩
-  | req => simp only [fixedExcl, fixedExclusions, specExcluded, denotes]; exact fixedFilter_contains _ _ _
-  | resp => simp only [fixedExcl, fixedExclusions, specExcluded, denotes]; exact fixedFilter_contains _ _ _
 
 end LunarVerif.C16
